@@ -335,6 +335,8 @@ def builtin_call(ex, ev: Eval, node, fname):
         raise Unsupported(f"list({v.t})")
     if fname in ("debug", "print"):
         return V(NONE, z3.BoolVal(True))
+    if fname == "sorted" and len(a) == 1:
+        return do_sorted(ex, ev, node)
     if fname == "callable" and len(a) == 1:
         return ex.new_sym(BOOL, "callable", ev.st)
     if fname in ("exp", "log", "sqrt") and len(a) == 1:
@@ -474,6 +476,45 @@ def dict_values_list(ex, ev, d: V):
     ev.st.vars["_key_at"] = key_at
     ev.st.vars["_pos_of"] = pos_of
     return out
+
+
+def do_sorted(ex, ev, node):
+    """sorted(xs[, key=lambda e: e[c]][, reverse=True]): a list of the same length whose k-th element is
+    xs[perm[k]] (ghost index map `_perm`), ordered by the key.  (Injectivity of perm is not stated.)"""
+    xs = ev.expr(node.args[0])
+    if not isinstance(xs.t, TList):
+        raise Unsupported("sorted over " + str(xs.t))
+    kw = {k.arg: k.value for k in node.keywords}
+    r = ex.new_sym(xs.t, "sorted", ev.st)
+    perm = fresh(TMap(INT, INT), "perm")
+    n = list_len(xs)
+    k = z3.Int("k!sorted")
+    a, b = z3.Int("a!sorted"), z3.Int("b!sorted")
+    ra = list_arr(r)
+    ev.st.pc.append(list_len(r) == n)
+    ev.st.pc.append(z3.ForAll([k], z3.Implies(z3.And(0 <= k, k < n),
+                                              z3.And(0 <= z3.Select(perm.z, k), z3.Select(perm.z, k) < n,
+                                                     z3.Select(ra, k) == z3.Select(list_arr(xs), z3.Select(perm.z, k)))),
+                              patterns=[z3.Select(ra, k)]))
+
+    def keyof(elem: V):
+        if "key" not in kw:
+            return elem
+        lam = kw["key"]
+        if not (isinstance(lam, ast.Lambda) and len(lam.args.args) == 1):
+            raise Unsupported("sorted key")
+        sub = Eval(ex, ev.st, ev.spec, {**ev.bound, lam.args.args[0].arg: elem}, ev.old, ev.result)
+        return sub.expr(lam.body)
+
+    ka, kb = keyof(V(xs.t.elem, z3.Select(ra, a))), keyof(V(xs.t.elem, z3.Select(ra, b)))
+    if ka.t not in (INT, REAL):
+        raise Unsupported("sorted key type")
+    rev = "reverse" in kw and isinstance(kw["reverse"], ast.Constant) and kw["reverse"].value is True
+    order = (ka.z >= kb.z) if rev else (ka.z <= kb.z)
+    ev.st.pc.append(z3.ForAll([a, b], z3.Implies(z3.And(0 <= a, a < b, b < n), order),
+                              patterns=[z3.MultiPattern(z3.Select(ra, a), z3.Select(ra, b))]))
+    ev.st.vars["_perm"] = perm
+    return r
 
 
 def do_slice(ex, ev, base, sl, node):
